@@ -508,7 +508,14 @@ class _Exporter:
 
         if isinstance(lhs, (str, ValueInfoProto)):
             return [assign(lhs, rhs)]
-        return [assign(x, y) for x, y in zip(lhs, rhs)]
+        pairs = list(zip(lhs, rhs))
+        if len(pairs) > 1:
+            # All right-hand sides are read before any target is bound (a loop body may pass a
+            # state variable on to another one): a single parallel assignment.
+            targets = ", ".join(to_var(x) for x, _ in pairs)
+            values = ", ".join(to_ref(y) for _, y in pairs)
+            return [f"{sindent}{targets} = {values}"]
+        return [assign(x, y) for x, y in pairs]
 
     def _translate_loop(self, node, opsets, indent=0):
         """Translates a node Loop into python."""
